@@ -17,7 +17,7 @@ def run(ctx, res):
     if ctx.tier == "quick":
         plan = [("frag", ["-n", "1500", "-profile", "fragment", "-variant", "norewrite"]),
                 ("wide", ["-n", "1200", "-profile", "wide", "-variant", "norewrite"]),
-                ("accel", ["-n", "800", "-profile", "accel", "-variant", "norewrite"]),
+                ("accel", ["-n", "800", "-profile", "accel", "-variant", "norewrite", "-maxlen", "16"]),
                 ("harvest", ["-profile", "harvest", "-harvest", vlib.REPO, "-variant", "norewrite"])]
     else:
         plan = [("frag%d" % i, ["-n", "4000", "-profile", "fragment", "-variant", "norewrite", "-maxlen", "14"]) for i in range(4)] + \
@@ -28,7 +28,7 @@ def run(ctx, res):
         relobs.obs_rel(ctx, res, args + ["-stream", str(S + k)], label, RULES)
     # F leg on the families whose shapes the rewrites look at (loops followed by X inside iterated bodies, atomic groups,
     # nested quantified groups): the rewritten program must equal the specification's prediction
-    fams = ["body3", "body3g", "atomseq"] if ctx.tier == "quick" else ["body3", "body3g", "atomseq", "grpq", "nested", "atom", "altseq"]
+    fams = ["body3", "body3g", "atomseq", "alt2"] if ctx.tier == "quick" else ["body3", "body3g", "atomseq", "alt2", "grpq", "nested", "atom", "altseq", "seqalt"]
     stride = 6 if ctx.tier == "quick" else 1
     findgen.gen_find(ctx, res, fams, [], "net", False, [97, 98, 99], 3, stride, ctx.seed % stride, "F-rewrite-shapes")
     findgen.gen_find(ctx, res, ["atomseq"], [], "net", False, [97, 98, 10], 4, 2 if ctx.tier == "quick" else 1, ctx.seed % 2 if ctx.tier == "quick" else 0, "F-atomic-lazy-len4")
